@@ -377,10 +377,67 @@ fn t_adaptive_par(c: &mut Case, i: &Inp) -> Res {
 // ---------------------------------------------------------------------------------------------
 // driving loops
 // ---------------------------------------------------------------------------------------------
-struct Plan { trained: bool, maxlen: usize, big: bool, freq_tables: bool, deep_train: bool }
+struct Plan { trained: bool, maxlen: usize, big: bool, freq_tables: bool, deep_train: bool, huge: usize }
+
+// ---------------------------------------------------------------------------------------------
+// large-input (`huge_*`) families: sizes just above the 16-bit / 20-bit marks, one symbol occurring > 65535 times,
+// > 1000:1 compressible shapes, X c X d with |X| >= 64 KiB, explicit frequency tables with counts up to 2^31
+// ---------------------------------------------------------------------------------------------
+const HUGE_LENS: &[usize] = &[65535, 65536, 65537, 131071, 131072, 131073, 131074, (1 << 20) - 1, 1 << 20, (1 << 20) + 1, (3 << 20) + 5];
+const HUGE_SHAPES: &[&str] = &["dominant", "all_equal", "long_runs", "short_period", "uniform", "alpha16"];
+fn huge_shape(c: &mut Case, shape: &str, len: usize) -> Vec<u8> {
+    match shape {
+        "dominant" => { // one symbol 60..99 % of the payload (count > 65535 once len >= 110 k), the rest spread over k other symbols
+            let d = c.rng.next() as u8; let pct = *c.rng.pick(&[60u64, 80, 95, 99]); let k = *c.rng.pick(&[1u64, 15, 255]);
+            (0..len).map(|_| if c.rng.below(100) < pct { d } else { d.wrapping_add(1 + c.rng.below(k) as u8) }).collect() }
+        "all_equal" => { let b = if c.rng.chance(1, 8) { 0 } else { 1 + c.rng.below(255) as u8 }; vec![b; len] }
+        "long_runs" => { let mut out = Vec::with_capacity(len); while out.len() < len { let b = c.rng.next() as u8; let n = 1000 + c.rng.usize_below(70000); let n = n.min(len - out.len()); out.resize(out.len() + n, b); } out }
+        "short_period" => { let p = 1 + c.rng.usize_below(9); let pat = c.rng.bytes(p); (0..len).map(|i| pat[i % p]).collect() }
+        "uniform" => c.rng.bytes(len),
+        _ => { let s = c.rng.bytes(16); (0..len).map(|_| s[c.rng.usize_below(16)]).collect() }
+    }
+}
+/// idx even: a length around 2^16 / 2^17; idx odd: any length up to `cap` (biased to the largest ones)
+fn huge_len(c: &mut Case, idx: u64, cap: usize) -> usize {
+    let all: Vec<usize> = HUGE_LENS.iter().copied().filter(|&l| l <= cap).collect(); let small: Vec<usize> = all.iter().copied().filter(|&l| l <= 131074).collect();
+    if idx % 2 == 0 || all.len() == small.len() { *c.rng.pick(&small) } else if c.rng.bool() { *all.last().unwrap() } else { *c.rng.pick(&all[small.len()..]) }
+}
+fn huge_train(c: &mut Case, data: &[u8], trained: bool) -> (Vec<u8>, &'static str) {
+    if !trained { return (data.to_vec(), "same"); }
+    match c.rng.below(4) { 0 | 1 => (data.to_vec(), "same"), 2 => (data[..data.len() / 2].to_vec(), "first_half"), _ => (gen_train(c, 3, data), "cover") }
+}
+fn huge_cases(ctx: &mut Ctx, target: &str, p: &Plan, body: &dyn Fn(&mut Case, &Inp) -> Res) {
+    if p.huge == 0 { return; }
+    for idx in 0..ctx.n(4, 40) as u64 {
+        ctx.case(target, "huge_len", idx, |c| {
+            let len = huge_len(c, idx, p.huge); let shape = *c.rng.pick(HUGE_SHAPES); let data = huge_shape(c, shape, len);
+            let (train, mode) = huge_train(c, &data, p.trained); let maxcount = *count(&data).iter().max().unwrap();
+            if maxcount > 65535 { c.note("symbol_count_gt_65535", 1); } if len > 1 << 20 { c.note("len_gt_1MiB", 1); }
+            let i = Inp { data, train, freqs: None, kind: 96 }; record(c, &format!("huge_{shape}"), mode, &i); body(c, &i) });
+    }
+    for idx in 0..ctx.n(2, 20) as u64 { // two identical halves of >= 64 KiB followed by a differing byte
+        ctx.case(target, "huge_xcxd", idx, |c| {
+            let xl = *c.rng.pick(&[65536usize, 65537, 70000, 131072]); let xl = xl.min(p.huge / 2);
+            let kind = *c.rng.pick(&[0u32, 5, 6, 10]); let x = gen::bytes_kind(&mut c.rng, kind, xl); let cb = c.rng.next() as u8; let db = cb.wrapping_add(1 + c.rng.below(255) as u8);
+            let mut data = x.clone(); data.push(cb); data.extend_from_slice(&x); data.push(db);
+            let train = if p.trained && c.rng.bool() { let mut t = x.clone(); t.push(cb); t.push(db); t } else { data.clone() };
+            let mode = if train == data { "same" } else { "x_only" };
+            let i = Inp { data, train, freqs: None, kind }; record(c, &format!("huge_xcxd_{}", gen::byte_kind_name(kind)), mode, &i); body(c, &i) });
+    }
+    if p.freq_tables { for idx in 0..ctx.n(2, 30) as u64 { // explicit tables with counts far above 2^16 (sum kept below 2^32: a >= 4 GiB payload is out of scope)
+        ctx.case(target, "huge_freq", idx, |c| {
+            let n = *c.rng.pick(&[2usize, 3, 17, 64, 65, 66, 200, 256]); let mut all: Vec<u8> = (0..=255u8).collect(); c.rng.shuffle(&mut all); let syms: Vec<u8> = all[..n].to_vec();
+            let mut f = [0u32; 256]; let big = *c.rng.pick(&[65536u32, 65537, 1 << 20, 1 << 24, 1 << 31, 3_000_000_000]);
+            f[syms[0] as usize] = big; let mut left = (u32::MAX - big) as u64;
+            for &s in &syms[1..] { let v = match c.rng.below(3) { 0 => 1, 1 => 1 + c.rng.below(70000), _ => 1 + c.rng.below(1 << 22) }.min(left / 2).max(1); f[s as usize] = v as u32; left -= v; }
+            let len = gen::pick_len(&mut c.rng, 2000).max(2); let data: Vec<u8> = (0..len).map(|_| *c.rng.pick(&syms)).collect();
+            let i = Inp { data, train: vec![], freqs: Some(f), kind: 95 }; record(c, "huge_freq", "table", &i); body(c, &i) });
+    } }
+}
 
 fn drive(ctx: &mut Ctx, target: &str, p: &Plan, body: &dyn Fn(&mut Case, &Inp) -> Res) {
     if !ctx.wants(target) { return; }
+    huge_cases(ctx, target, p, body);
     let modes: usize = if p.trained { 4 } else { 1 };
     let per = if p.trained { ctx.n(3, 90) } else { ctx.n(12, 360) } as u64;
     for kind in 0..gen::BYTE_KINDS { for mode in 0..modes { for idx in 0..per {
@@ -443,10 +500,10 @@ fn silence_stdout() {
 
 pub fn run(ctx: &mut Ctx) {
     silence_stdout();
-    let lin = Plan { trained: true, maxlen: 4097, big: true, freq_tables: false, deep_train: false };   // linear-time, trained on separate data
-    let lin_small = Plan { trained: true, maxlen: 4097, big: false, freq_tables: false, deep_train: false };
-    let selfp = Plan { trained: false, maxlen: 4097, big: true, freq_tables: false, deep_train: false }; // self-describing / self-trained
-    let quad = Plan { trained: true, maxlen: 3000, big: false, freq_tables: false, deep_train: false };  // quadratic search
+    let lin = Plan { trained: true, maxlen: 4097, big: true, freq_tables: false, deep_train: false, huge: (3 << 20) + 5 };   // linear-time, trained on separate data
+    let lin_small = Plan { trained: true, maxlen: 4097, big: false, freq_tables: false, deep_train: false, huge: (1 << 20) + 1 };
+    let selfp = Plan { trained: false, maxlen: 4097, big: true, freq_tables: false, deep_train: false, huge: (3 << 20) + 5 }; // self-describing / self-trained
+    let quad = Plan { trained: true, maxlen: 3000, big: false, freq_tables: false, deep_train: false, huge: 0 };  // quadratic search
 
     // --- Huffman family
     drive(ctx, "huff0", &Plan { freq_tables: true, deep_train: true, ..lin }, &|c, i| t_huff0(c, i, false));
@@ -485,6 +542,63 @@ pub fn run(ctx: &mut Ctx) {
         drive(ctx, t, &Plan { deep_train: true, ..lin }, &|c, i| t_simd(c, i, tier));
     }
     drive(ctx, "adaptive_par", &selfp, &|c, i| t_adaptive_par(c, i));
+    huge_special(ctx);
+}
+
+/// `huge_*` families that need a target-specific shape or configuration to stay linear-time.
+fn huge_special(ctx: &mut Ctx) {
+    // DictionaryCompressor searches a 32 KiB window exhaustively (quadratic): only shapes that one match record can cover are affordable.
+    // With max_match_length >= |x| a run / short period is coded as ~10 literals + one match whose length field exceeds 2^16 (and 2^20).
+    for idx in 0..ctx.n(3, 30) as u64 {
+        ctx.case("dict/cfg", "huge_run", idx, |c| {
+            let len = *c.rng.pick(&[65537usize, 131073, (1 << 20) + 1]); let shape = if c.rng.bool() { "all_equal" } else { "short_period" }; let data = huge_shape(c, shape, len);
+            let mn = *c.rng.pick(&[1usize, 3, 10, 64]); let mx = 4usize << 20;
+            c.input_str("cfg", &format!("min_match={mn} max_match={mx} builder(default)")); c.note("match_len_gt_65535", 1);
+            let i = Inp { data, train: vec![], freqs: None, kind: 96 }; record(c, &format!("huge_{shape}"), "same", &i);
+            let comp = DictionaryCompressor::new(DictionaryBuilder::new().build(&i.data[..256])).min_match_length(mn).max_match_length(mx);
+            let Some(z) = enc(c, "DictionaryCompressor::compress", || comp.compress(&i.data))? else { return Ok(()) };
+            encoded(c, &i); if z.len() < 2 * i.data.len() { c.note("used_backrefs", 1); }
+            dec(c, "DictionaryCompressor::decompress", &i.data, || comp.decompress(&z)) });
+    }
+    // OptimizedDictionaryCompressor is linear on high-entropy text (one candidate per hash): positions > 2^16, and with a 1 MiB window
+    // back-reference distances > 2^16 (X c X d) and, with a large max_match_length, match lengths > 2^16.
+    for (target, cfgd) in [("optdict/default", false), ("optdict/cfg", true)] { for idx in 0..ctx.n(3, 30) as u64 {
+        ctx.case(target, "huge_xcxd", idx, |c| {
+            let xl = *c.rng.pick(&[65536usize, 65537, 70000, 131072]); let x = c.rng.bytes(xl); let cb = c.rng.next() as u8; let db = cb.wrapping_add(1 + c.rng.below(255) as u8);
+            let mut data = x.clone(); data.push(cb); data.extend_from_slice(&x); data.push(db);
+            let train = match c.rng.below(3) { 0 => { let mut t = x.clone(); t.push(cb); t } 1 => c.rng.bytes(65537), _ => data.clone() };
+            let (mn, mx, w) = if cfgd { (*c.rng.pick(&[3usize, 10, 12]), *c.rng.pick(&[258usize, 65536, 4 << 20]), *c.rng.pick(&[65536usize, 1 << 20, 1 << 24])) } else { (3, 258, 32768) };
+            if cfgd { c.input_str("cfg", &format!("min_match={mn} max_match={mx} window={w}")); }
+            if xl + 1 <= w { c.note("backref_distance_gt_65535_possible", 1); }
+            let i = Inp { data, train, freqs: None, kind: 0 }; record(c, "huge_xcxd_uniform", if i.train == i.data { "same" } else { "other" }, &i);
+            if i.train != i.data { c.tag("optdict_train_ne_payload"); }
+            let comp = if cfgd { enc(c, "OptimizedDictionaryCompressor::with_config", || OptimizedDictionaryCompressor::with_config(&i.train, mn, mx, w))? } else { enc(c, "OptimizedDictionaryCompressor::new", || OptimizedDictionaryCompressor::new(&i.train))? };
+            let Some(comp) = comp else { return Ok(()) };
+            let Some(z) = enc(c, "OptimizedDictionaryCompressor::compress", || comp.compress(&i.data))? else { return Ok(()) };
+            encoded(c, &i); if z.len() < 2 * i.data.len() - 1000 { c.note("used_backrefs", 1); }
+            dec(c, "OptimizedDictionaryCompressor::decompress", &i.data, || comp.decompress(&z)) });
+    } }
+    // AdaptiveParallelEncoder: one case per branch that needs a large payload (fse needs > 1 MiB; x4 >= 64 KiB; x8 >= 1 MiB)
+    for idx in 0..ctx.n(5, 40) as u64 {
+        ctx.case("adaptive_par", "huge_branch", idx, |c| {
+            let (shape, len) = match idx % 5 { 0 => ("alpha16", (1 << 20) + 1 + c.rng.usize_below(70000)), 1 => ("uniform", (1 << 20) + c.rng.usize_below(3)), 2 => ("uniform", 65536 + c.rng.usize_below(70000)),
+                3 => ("dominant", (1 << 20) + 1 + c.rng.usize_below(9)), _ => ("alpha16", 65536 + c.rng.usize_below(3)) };
+            let data = huge_shape(c, shape, len); let i = Inp { train: data.clone(), data, freqs: None, kind: 96 }; record(c, &format!("huge_{shape}"), "same", &i); t_adaptive_par(c, &i) });
+    }
+    // AdaptiveRans64Encoder picks the x8 variant only from 73^4 = 28 398 241 bytes
+    for idx in 0..ctx.n(1, 4) as u64 {
+        ctx.case("rans/adaptive", "huge_x8", idx, |c| {
+            let len = 73 * 73 * 73 * 73 + c.rng.usize_below(9); let shape = *c.rng.pick(&["dominant", "alpha16", "long_runs"]); let data = huge_shape(c, shape, len);
+            let i = Inp { train: vec![], data, freqs: None, kind: 96 }; c.input_str("kind", &format!("huge_{shape}")); c.input("data", &i.data); t_rans_adaptive(c, &i) });
+    }
+    // high_compression(): more than 64 blocks of 128 KiB
+    for idx in 0..ctx.n(1, 6) as u64 {
+        ctx.case("fse/high", "huge_blocks_gt_64", idx, |c| {
+            let len = 64 * 128 * 1024 + 1 + c.rng.usize_below(300000); let shape = *c.rng.pick(&["dominant", "alpha16", "long_runs", "uniform"]); let data = huge_shape(c, shape, len);
+            let cfg = FseConfig::high_compression(); let i = Inp { data, train: vec![], freqs: None, kind: 96 }; c.input_str("kind", &format!("huge_{shape}")); c.input("data", &i.data);
+            c.note("path:parallel_blocks", 1); c.tag("fse_parallel_blocks_gt_64");
+            fse_roundtrip(c, &cfg, &i.data, &i, true) });
+    }
 }
 
 /// FSE parallel-block path: `parallel_blocks = Some(k)` and a payload longer than 2 x block_size.
